@@ -1,3 +1,4 @@
+import Noodles.Props.C03Trunc
 import Noodles.Bgzf.MtModel
 import Noodles.Bgzf.MtProof
 /-!
